@@ -6,12 +6,33 @@
 #include <patch/file.h>
 
 #include <cstdint>
+#include <limits>
 #include <string>
 #include <vector>
 
 namespace Patch {
 
 using LineNumber = int64_t;
+
+// The line numbers given in a patch may be arbitrarily large. Arithmetic on
+// them saturates at the limits of LineNumber instead of overflowing.
+inline LineNumber saturating_add(LineNumber a, LineNumber b)
+{
+    if (b > 0 && a > std::numeric_limits<LineNumber>::max() - b)
+        return std::numeric_limits<LineNumber>::max();
+    if (b < 0 && a < std::numeric_limits<LineNumber>::min() - b)
+        return std::numeric_limits<LineNumber>::min();
+    return a + b;
+}
+
+inline LineNumber saturating_sub(LineNumber a, LineNumber b)
+{
+    if (b < 0 && a > std::numeric_limits<LineNumber>::max() + b)
+        return std::numeric_limits<LineNumber>::max();
+    if (b > 0 && a < std::numeric_limits<LineNumber>::min() + b)
+        return std::numeric_limits<LineNumber>::min();
+    return a - b;
+}
 
 struct Range {
     LineNumber start_line { -1 };
